@@ -20,6 +20,7 @@ from __future__ import annotations
 
 import ast
 from dataclasses import dataclass, field
+from typing import NamedTuple
 
 import sympy as sp
 
@@ -37,7 +38,22 @@ LOGZERO = sp.Function('logzero')
 
 
 class TypeErr(Exception):
-    pass
+    """a statement the typing cannot type.  `clash`: two typed terms of different degrees meet; `var`: the local container
+    whose entries clash ('' when the clash is in an actual sum: `a + b`, bioMultSum of the entries)"""
+
+    def __init__(self, msg: str, clash: bool = False, var: str = ''):
+        super().__init__(msg)
+        self.clash = clash
+        self.var = var
+
+
+class Finding(NamedTuple):
+    line: int
+    msg: str
+    #: True: typed terms of different degrees meet (anything else is a statement the typing does not understand)
+    clash: bool = False
+    #: the container whose entries have different degrees; '' when the terms are summed (the clash is then a fact about a sum)
+    var: str = ''
 
 
 def terms_equal(a: sp.Expr | None, b: sp.Expr | None) -> bool | None:
@@ -88,6 +104,7 @@ class AV:
     term: sp.Expr | None = None
     nullable: bool = False  # carries a user-supplied factor (alpha) that may be exactly zero
     ref: str = ''  # for Map: 'util' | 'avail'
+    clash: str = ''  # for Unknown: the entries of this container have different degrees (a fact only once they are summed)
 
     def __repr__(self):
         return f'{self.kind}({sp.simplify(self.deg) if self.deg is not None else ""})'
@@ -142,6 +159,7 @@ class Binding:
     text: str = ''
     loops: tuple = ()
     accumulates: bool = False  # stored with append / += (the number of executions matters), not by assignment to a key
+    key: str = ''  # text of the key, for an item assignment d[key] = value
 
 
 def join(vals: list[AV], ctx: str) -> AV | None:
@@ -167,7 +185,7 @@ def join(vals: list[AV], ctx: str) -> AV | None:
     ds = [conv(v).deg for v in vals]
     for d in ds[1:]:
         if sp.simplify(d - ds[0]) != 0:
-            raise TypeErr(f'{ctx}: degrees differ: {[str(sp.simplify(x)) for x in ds]}')
+            raise TypeErr(f'{ctx}: degrees differ: {[str(sp.simplify(x)) for x in ds]}', clash=True)
     out = mk(ds[0], vals[0].term)
     out.nullable = all(v.nullable for v in vals)
     return out
@@ -231,10 +249,15 @@ class Interp:
         self._helper_depth = 0
         self.env: dict[str, AV | None] = {}
         self.bindings: dict[str, list[Binding]] = {}
-        self.findings: list[tuple[int, str]] = []
+        self.findings: list[Finding] = []
         self.ret: AV | None = None
         self.ret_name: str | None = None
         self._loops: list[str] = []
+        #: names bound by the enclosing loops / comprehensions (parallel to _loops)
+        self._loop_vars: list[set[str]] = []
+        #: local names that hold a list / dict (assigned a display, a comprehension, list() / dict()), with the loops under which
+        #: they were (last) initialised
+        self.containers: dict[str, tuple] = {}
         self.log_of_nullable: list[tuple[int, str]] = []
 
     def _loop_name(self, it: ast.expr) -> str:
@@ -270,7 +293,26 @@ class Interp:
         return 'unknown'
 
     def loop_classes(self, loops) -> tuple:
-        return tuple(self.loop_class(x) for x in loops)
+        return tuple(self.loop_class(x) for x in self.effective_loops(loops))
+
+    def effective_loops(self, loops) -> tuple:
+        """a single top-level loop over a local list that one append statement has filled (list initialised empty at top
+        level, never stored into otherwise) runs once per execution of that append: it stands for the loops the append is
+        under.  Any other loop over a local container is left as it is (class 'entries': the rules cannot count it)."""
+        import re
+
+        loops = tuple(loops)
+        for _ in range(3):
+            if len(loops) != 1:
+                break
+            m = re.fullmatch(r'\w+', loops[0])
+            if not m or loops[0] not in self.bindings or self.containers.get(loops[0]) != ():
+                break
+            bs = self.bindings[loops[0]]
+            if len(bs) != 1 or not bs[0].accumulates or not re.match(rf'{loops[0]}\.append\(', bs[0].text) or not bs[0].loops:
+                break
+            loops = bs[0].loops
+        return loops
 
     # ---- expressions
     def ev(self, n: ast.AST) -> AV | None:
@@ -322,26 +364,34 @@ class Interp:
         if isinstance(n, ast.Call):
             return self.call(n)
         if isinstance(n, ast.ListComp):
-            self._loops.append(self._loop_name(n.generators[0].iter))
-            self._bind_target(n.generators[0].target, n.generators[0].iter)
+            self._enter_loop(n.generators[0].target, n.generators[0].iter)
             try:
                 v = self.ev(n.elt) if len(n.generators) == 1 and not n.generators[0].ifs else U()
                 self.comp_values[id(n)] = v
                 self.comp_values[(n.lineno, n.col_offset, unparse(n))] = v
                 return v
             finally:
-                self._loops.pop()
+                self._exit_loop()
         if isinstance(n, ast.DictComp):
-            self._loops.append(self._loop_name(n.generators[0].iter))
-            self._bind_target(n.generators[0].target, n.generators[0].iter)
+            self._enter_loop(n.generators[0].target, n.generators[0].iter)
             try:
-                return self.ev(n.value)
+                return self.ev(n.value) if len(n.generators) == 1 and not n.generators[0].ifs else U()
             finally:
-                self._loops.pop()
-        if isinstance(n, ast.List):
-            return join([self.ev(e) for e in n.elts], f'line {n.lineno}') if n.elts else None
-        if isinstance(n, ast.Dict):
-            return join([self.ev(e) for e in n.values], f'line {n.lineno}') if n.values else None
+                self._exit_loop()
+        if isinstance(n, (ast.List, ast.Dict)):
+            parts = n.elts if isinstance(n, ast.List) else n.values
+            if not parts:
+                return None
+            if any(isinstance(e, ast.Starred) or e is None for e in parts):
+                return U()
+            try:
+                return join([self.ev(e) for e in parts], f'line {n.lineno}')
+            except TypeErr as e:
+                if not e.clash:
+                    raise
+                # a display whose entries have different degrees (a record {'sum': s, 'exponent': 1 / mu_m}) is not a clash
+                # until its entries are summed
+                return AV('Unknown', clash=str(e))
         return U()
 
     def _map_of(self, base: ast.AST) -> str:
@@ -367,10 +417,12 @@ class Interp:
 
     def _subscript(self, n: ast.Subscript) -> AV | None:
         ref = self._map_of(n.value)
-        if ref == 'util':
-            return L(1, V)
-        if ref == 'avail':
-            return C(None, A)
+        if ref in ('util', 'avail'):
+            # V / av stand for the utility / availability of the alternative the enclosing loop is at: util[<anything else>]
+            # (a fixed alternative, the first of the nest) is another quantity, which the typing has no symbol for
+            if not self._is_loop_index(n.slice):
+                return U()
+            return L(1, V) if ref == 'util' else C(None, A)
         base = unparse(n.value)
         if base in self.env:
             v = self.env[base]
@@ -381,6 +433,32 @@ class Interp:
             a.nullable = True
             return a
         return U()
+
+    def _enter_loop(self, target: ast.AST, it: ast.AST) -> None:
+        self._loops.append(self._loop_name(it))
+        self._loop_vars.append({x.id for x in ast.walk(target) if isinstance(x, ast.Name)})
+        self._bind_target(target, it)
+
+    def _exit_loop(self) -> None:
+        self._loops.pop()
+        self._loop_vars.pop()
+
+    def _is_loop_index(self, idx: ast.AST) -> bool:
+        """the subscript is a variable of an enclosing loop / comprehension (the alternative the loop is at), possibly through
+        a single-definition local"""
+        from .core import inline_locals
+
+        if not isinstance(idx, ast.Name):
+            return False
+        if any(idx.id in vs for vs in self._loop_vars):
+            return True
+        if idx.id in self.env:
+            return False
+        try:
+            r = inline_locals(self.f.node, idx)
+        except Exception:  # noqa
+            return False
+        return isinstance(r, ast.Name) and any(r.id in vs for vs in self._loop_vars)
 
     def _bind_target(self, target: ast.AST, it: ast.AST) -> None:
         """loop variables: alpha of a cross-nested nest is a positive constant; the values of a dictionary the function knows"""
@@ -402,6 +480,11 @@ class Interp:
         elif isinstance(target, ast.Name) and meth == 'values':
             val_name = target.id
         if val_name is None:
+            # the elements of a local list the function has filled with append / += [..]
+            src = iterated(it)
+            if isinstance(target, ast.Name) and isinstance(src, ast.Name) and src.id in self.bindings and all(b.accumulates for b in self.bindings[src.id]) \
+                    and self.env.get(src.id) is not None:
+                self.env[target.id] = self.env[src.id]
             return
         if t.endswith('dict_of_alpha.items()') or t.endswith('dict_of_alpha.values()'):
             a = C(None, ALPHA)
@@ -454,7 +537,7 @@ class Interp:
                 return L(a.deg + b.deg if op == 'Add' else a.deg - b.deg, term)
             a, b = as_hom(l), as_hom(r)
             if sp.simplify(a.deg - b.deg) != 0:
-                raise TypeErr(f'line {n.lineno}: sum of terms of degrees {sp.simplify(a.deg)} and {sp.simplify(b.deg)}')
+                raise TypeErr(f'line {n.lineno}: sum of terms of degrees {sp.simplify(a.deg)} and {sp.simplify(b.deg)}', clash=True)
             return H(a.deg, term)
         if op == 'Mult':
             if l.kind == 'Const' and r.kind == 'LogHom':
@@ -497,8 +580,14 @@ class Interp:
             if a.kind == 'Const':
                 return C(sp.log(a.deg) if a.deg is not None else None, t)
             return L(as_hom(a).deg, t)
-        if f in ('Numeric', 'float', 'int') and len(n.args) == 1 and not n.keywords:
+        if f == 'Numeric' and len(n.args) == 1 and not n.keywords:
             return self.ev(n.args[0])
+        if f in ('float', 'int') and len(n.args) == 1 and not n.keywords:
+            # the conversion of a number; of anything else (an expression, a parameter) it is not the identity
+            a = self.ev(n.args[0])
+            if a is not None and a.kind == 'Const' and a.deg is not None and getattr(a.deg, 'is_number', False) and (f == 'float' or a.deg.is_integer):
+                return a
+            return U()
         if f in ('bioMultSum', 'ConditionalSum') and (n.args or n.keywords):
             arg = n.args[0] if n.args else n.keywords[0].value
             v = self.ev(arg)
@@ -506,6 +595,8 @@ class Interp:
                 # the sum of a list the typing has seen nothing stored into
                 return U()
             if is_unknown(v):
+                if v.clash:
+                    raise TypeErr(f'line {n.lineno}: {f} of terms of different degrees: {v.clash}', clash=True)
                 return U()
             t = (SUM if f == 'bioMultSum' else CSUM)(v.term) if v.term is not None else None
             if v.kind == 'Const':
@@ -589,24 +680,83 @@ class Interp:
         return ast.fix_missing_locations(Sub().visit(copy.deepcopy(e)))
 
     # ---- statements
-    def run(self, stmts) -> None:
+    @staticmethod
+    def _fused(stmts) -> list:
+        """`d[k] = a` directly followed by `d[k] op= b` (arithmetic, b not a list) is the single store `d[k] = a op b`: the
+        entry is typed once, with its final value"""
+        out: list = []
         for st in stmts:
+            prev = out[-1] if out else None
+            if isinstance(st, ast.AugAssign) and isinstance(st.target, ast.Subscript) and isinstance(st.op, (ast.Add, ast.Sub, ast.Mult, ast.Div, ast.Pow)) \
+                    and not isinstance(st.value, (ast.List, ast.ListComp, ast.Tuple, ast.Dict, ast.Set)) \
+                    and isinstance(prev, ast.Assign) and len(prev.targets) == 1 and isinstance(prev.targets[0], ast.Subscript) \
+                    and ast.dump(prev.targets[0].value) == ast.dump(st.target.value) and ast.dump(prev.targets[0].slice) == ast.dump(st.target.slice) \
+                    and not any(isinstance(x, (ast.Call, ast.NamedExpr)) for x in ast.walk(st.target)):
+                new = ast.Assign(targets=prev.targets, value=ast.copy_location(ast.BinOp(left=prev.value, op=st.op, right=st.value), st), type_comment=None)
+                out[-1] = ast.copy_location(new, st)
+                continue
+            out.append(st)
+        return out
+
+    def run(self, stmts) -> None:
+        for st in self._fused(stmts):
             try:
                 self.stmt(st)
             except TypeErr as e:
-                self.findings.append((st.lineno, str(e)))
+                self.findings.append(Finding(st.lineno, str(e), e.clash, e.var))
 
-    def bind(self, name: str, v: AV | None, st: ast.stmt) -> None:
+    def bind(self, name: str, v: AV | None, st: ast.stmt, accumulates: bool | None = None) -> None:
         if v is None:
             return
         src = self._loops[-1] if self._loops else ''
-        self.bindings.setdefault(name, []).append(Binding(st.lineno, src, v, unparse(st)[:200], tuple(self._loops), accumulates=isinstance(st, (ast.AugAssign, ast.Expr))))
+        if accumulates is None:
+            accumulates = isinstance(st, (ast.AugAssign, ast.Expr))
+        self.bindings.setdefault(name, []).append(Binding(st.lineno, src, v, unparse(st)[:200], tuple(self._loops), accumulates=accumulates))
         old = self.env.get(name)
         try:
-            self.env[name] = v if old is None else join([old, v], f'line {st.lineno}: entries of {name}')
-        except TypeErr:
+            new = v if old is None else join([old, v], f'line {st.lineno}: entries of {name}')
+        except TypeErr as e:
+            if e.clash:
+                # entries of different degrees in one container: a contradiction only if the container is summed (the sum then
+                # raises the clash) or is the result of the function (the rules look at `var`)
+                self.env[name] = AV('Unknown', clash=str(e))
+                raise TypeErr(str(e), clash=True, var=name) from None
             self.env[name] = old
             raise
+        if old is not None and old.clash and new is not v and new.kind == 'Unknown':
+            new.clash = old.clash
+        self.env[name] = new
+
+    def _is_container(self, name: str) -> bool:
+        return name in self.bindings or name in self.containers
+
+    @staticmethod
+    def _is_container_value(e: ast.AST) -> bool:
+        if isinstance(e, (ast.List, ast.Dict, ast.Set, ast.Tuple, ast.ListComp, ast.DictComp, ast.SetComp)):
+            return True
+        return isinstance(e, ast.Call) and isinstance(e.func, ast.Name) and e.func.id in ('list', 'dict', 'set', 'tuple', 'defaultdict', 'OrderedDict')
+
+    def _avail_none_test(self, test: ast.AST) -> bool | None:
+        """True: the test says the availabilities are None; False: that they are not; None: another test (or the parameter has
+        been assigned, so that the test is not about the argument)"""
+        r = none_test(test)
+        if r is None or r[0] != self.avail or self.avail in self.env:
+            return None
+        return r[1]
+
+    def _run_unavailable_world(self, stmts) -> None:
+        """statements that run only when no availabilities are given: typed (findings, values of the comprehensions, what
+        they store into containers) but the scalar locals they assign are not carried on - the rest of the function is typed
+        for the case where availabilities are given, whichever way round the two cases are written (if/else, two ifs)"""
+        saved = dict(self.env)
+        self.run(stmts)
+        for k in list(self.env):
+            if self._is_container(k):
+                continue
+            if k in saved:
+                self.env[k] = saved[k]
+            else:
+                del self.env[k]
 
     def stmt(self, st: ast.stmt) -> None:
         from .normal import as_loop
@@ -623,9 +773,9 @@ class Interp:
             if isinstance(t, ast.Name):
                 if isinstance(st.value, (ast.DictComp, ast.ListComp)):
                     self.env[t.id] = None
-                    self._loops.append(self._loop_name(st.value.generators[0].iter))
+                    self.containers[t.id] = tuple(self._loops)
+                    self._enter_loop(st.value.generators[0].target, st.value.generators[0].iter)
                     try:
-                        self._bind_target(st.value.generators[0].target, st.value.generators[0].iter)
                         v = self.ev(st.value.value if isinstance(st.value, ast.DictComp) else st.value.elt)
                         if st.value.generators[0].ifs or len(st.value.generators) != 1:
                             v = U()
@@ -634,40 +784,146 @@ class Interp:
                             self.comp_values[(st.value.lineno, st.value.col_offset, unparse(st.value))] = v
                         self.bind(t.id, v, st)
                     finally:
-                        self._loops.pop()
+                        self._exit_loop()
                 elif isinstance(st.value, (ast.Dict, ast.List)) and not (getattr(st.value, 'keys', None) or getattr(st.value, 'elts', None)):
                     self.env[t.id] = None
+                    self.containers[t.id] = tuple(self._loops)
                 else:
+                    if self._is_container_value(st.value):
+                        self.containers[t.id] = tuple(self._loops)
+                    else:
+                        self.containers.pop(t.id, None)
                     self.env[t.id] = self.ev(st.value)
             elif isinstance(t, ast.Subscript):
                 v = self.ev(st.value)
                 self.bind(unparse(t.value), v, st)
+                bs = self.bindings.get(unparse(t.value))
+                if v is not None and bs:
+                    bs[-1].key = unparse(t.slice)
         elif isinstance(st, ast.AnnAssign) and st.value is not None:
             v = self.ev(st.value) if not (isinstance(st.value, (ast.Dict, ast.List)) and not (getattr(st.value, 'keys', None) or getattr(st.value, 'elts', None))) else None
+            if self._is_container_value(st.value):
+                self.containers[unparse(st.target)] = tuple(self._loops)
             self.env[unparse(st.target)] = v
         elif isinstance(st, ast.AugAssign):
-            tgt = st.target.value if isinstance(st.target, ast.Subscript) else st.target
-            self.bind(unparse(tgt), self.ev(st.value), st)
-        elif isinstance(st, ast.Expr) and isinstance(st.value, ast.Call) and isinstance(st.value.func, ast.Attribute) and st.value.func.attr == 'append':
+            self._aug_assign(st)
+        elif isinstance(st, ast.Expr) and isinstance(st.value, ast.Call) and isinstance(st.value.func, ast.Attribute) and st.value.func.attr == 'append' \
+                and len(st.value.args) == 1 and not st.value.keywords and not isinstance(st.value.args[0], ast.Starred):
             recv = st.value.func.value
             recv = recv.value if isinstance(recv, ast.Subscript) else recv
             self.bind(unparse(recv), self.ev(st.value.args[0]), st)
+        elif isinstance(st, ast.Expr) and isinstance(st.value, ast.Call) and isinstance(st.value.func, ast.Attribute) and self._container_of(st.value.func.value) is not None:
+            # another method of a container the function fills (update, extend, insert, setdefault, pop, clear, ...)
+            name = self._container_of(st.value.func.value)
+            c = st.value
+            if c.func.attr == 'update' and len(c.args) == 1 and not c.keywords and isinstance(c.args[0], ast.Dict) and all(k is not None for k in c.args[0].keys) and isinstance(c.func.value, ast.Name):
+                for e in c.args[0].values:
+                    self.bind(name, self.ev(e), st, accumulates=False)
+            elif c.func.attr == 'extend' and len(c.args) == 1 and not c.keywords and isinstance(c.args[0], ast.List) and not any(isinstance(e, ast.Starred) for e in c.args[0].elts):
+                for e in c.args[0].elts:
+                    self.bind(name, self.ev(e), st, accumulates=True)
+            elif c.func.attr in ('copy', 'keys', 'values', 'items', 'get', 'index', 'count'):
+                pass
+            else:
+                # what it stores (or removes) is not read: the content of the container is no longer what the typing has seen
+                self.bind(name, U(), st, accumulates=True)
+        elif isinstance(st, ast.Delete) and any(isinstance(t, ast.Subscript) and self._container_of(t.value) is not None for t in st.targets):
+            for t in st.targets:
+                if isinstance(t, ast.Subscript) and self._container_of(t.value) is not None:
+                    self.bind(self._container_of(t.value), U(), st, accumulates=True)
         elif isinstance(st, ast.For):
-            self._loops.append(self._loop_name(st.iter))
-            self._bind_target(st.target, st.iter)
+            self._enter_loop(st.target, st.iter)
             try:
                 self.run(st.body)
             finally:
-                self._loops.pop()
+                self._exit_loop()
         elif isinstance(st, ast.If):
             t = unparse(st.test)
             if 'isinstance' in t or (isinstance(st.test, ast.UnaryOp) and isinstance(st.test.op, ast.Not) and isinstance(st.test.operand, ast.Name) and st.body and isinstance(st.body[-1], ast.Raise)):
                 return
-            self.run(st.body)
-            self.run(st.orelse)
+            none = self._avail_none_test(st.test)
+            if none is None:
+                self.run(st.body)
+                self.run(st.orelse)
+            else:
+                # exactly one of the two cases runs; the function is typed for the case where availabilities are given
+                without, with_ = (st.body, st.orelse) if none else (st.orelse, st.body)
+                self._run_unavailable_world(without)
+                self.run(with_)
         elif isinstance(st, ast.Return):
             self.ret = self.ev(st.value) if st.value is not None else None
             self.ret_name = unparse(st.value) if isinstance(st.value, ast.Name) else None
+
+
+def _interp_container_of(self, recv: ast.AST) -> str | None:
+    """the name of the local container that `recv` (a name, or an element of it: d[k]) belongs to"""
+    base = recv.value if isinstance(recv, ast.Subscript) else recv
+    if isinstance(base, ast.Name) and self._is_container(base.id):
+        return base.id
+    return None
+
+
+def _interp_aug_assign(self, st: ast.AugAssign) -> None:
+    """`x op= e`.  Expression defines no in-place operators, so on a local that holds a term it is `x = x op e`; on a list /
+    a dictionary it stores into the container (`l += [e]` extends, `d |= {k: e}` updates, `d[k] += [e]` extends the entry)"""
+    from .normal import as_loop
+
+    t = st.target
+    if isinstance(t, ast.Name) and not self._is_container(t.id):
+        cur = ast.copy_location(ast.Name(id=t.id, ctx=ast.Load()), t)
+        e = ast.copy_location(ast.BinOp(left=cur, op=st.op, right=st.value), st)
+        self.env[t.id] = self.ev(e)
+        return
+    name = self._container_of(t)
+    if name is None:
+        # an attribute, an element of something the typing does not follow
+        return
+    if isinstance(t, ast.Name) and isinstance(st.op, ast.BitOr):
+        if isinstance(st.value, ast.DictComp):
+            # d |= {k: v for ...} is d.update({k: v for ...}): the loop that assigns d[k] = v
+            upd = ast.copy_location(ast.Expr(value=ast.Call(func=ast.Attribute(value=ast.Name(id=t.id, ctx=ast.Load()), attr='update', ctx=ast.Load()), args=[st.value], keywords=[])), st)
+            ast.fix_missing_locations(upd)
+            lp = as_loop(upd)
+            if lp is not None:
+                for x in lp:
+                    self.stmt(x)
+                return
+        if isinstance(st.value, ast.Dict) and all(k is not None for k in st.value.keys):
+            for e in st.value.values:
+                self.bind(name, self.ev(e), st, accumulates=False)
+            return
+        self.bind(name, U(), st, accumulates=True)
+        return
+    if isinstance(st.op, ast.Add) and isinstance(st.value, ast.List) and not any(isinstance(e, ast.Starred) for e in st.value.elts):
+        for e in st.value.elts:
+            self.bind(name, self.ev(e), st, accumulates=True)
+        return
+    if isinstance(t, ast.Subscript) and isinstance(t.value, ast.Name) and isinstance(st.op, (ast.Add, ast.Sub, ast.Mult, ast.Div, ast.Pow)) and not self._is_container_value(st.value):
+        # d[k] op= e on the entry that the statement before stored under the same key, in the same loops: d[k] = <that> op e
+        key = unparse(t.slice)
+        bs = self.bindings.get(name, [])
+        if bs and bs[-1].key == key and bs[-1].loops == tuple(self._loops) and not bs[-1].accumulates:
+            last = bs[-1]
+            tmp = '$entry'
+            self.env[tmp] = last.value
+            try:
+                v = self.ev(ast.copy_location(ast.BinOp(left=ast.copy_location(ast.Name(id=tmp, ctx=ast.Load()), t), op=st.op, right=st.value), st))
+            finally:
+                del self.env[tmp]
+            last.value = v
+            last.text = (last.text + '; ' + unparse(st))[:200]
+            try:
+                self.env[name] = join([b.value for b in bs], f'line {st.lineno}: entries of {name}')
+            except TypeErr as e:
+                if e.clash:
+                    self.env[name] = AV('Unknown', clash=str(e))
+                raise TypeErr(str(e), clash=e.clash, var=name) from None
+            return
+    self.bind(name, U(), st, accumulates=True)
+
+
+Interp._container_of = _interp_container_of
+Interp._aug_assign = _interp_aug_assign
 
 
 def analyse(f: FuncInfo) -> Interp:
